@@ -332,6 +332,28 @@ def probe_model(ctx, pg, cfg, ts, coal):
         ctx.corr_break('model-accumulate', cfg=cfg, times=f, model=[float(x) for x in m], real=r)
 
 
+def probe_pdf_window(ctx, pg, cfg, ts, coal):
+    """
+    Tie of `PGProofs.PdfVec.codePdf` to `TreeHeightDistribution.pdf`: the model's formula — two vector cdf calls at
+    x1 = max(t - dx/2, 0) and x2 = x1 + dx, entrywise difference quotient — evaluated over the REAL cdf must reproduce the
+    real pdf(ts, dx) on the same unsorted vector (includes t < dx/2, where the window is clipped at zero).
+    """
+    f = [float(t) for t in ts] + [DX / 4, 0.0]
+    th = coal.tree_height
+    try:
+        real = np.asarray(th.pdf(np.array(f), dx=DX), dtype=float)
+        x1 = [max(t - DX / 2, 0.0) for t in f]
+        x2 = [a + DX for a in x1]
+        model = (np.asarray(th.cdf(np.array(x2)), dtype=float) - np.asarray(th.cdf(np.array(x1)), dtype=float)) / DX
+    except Exception:
+        return
+    ctx.count('probe:pdf-window')
+    tol = max(ABS, PDF_ULPS * EPS / DX)
+    if real.shape != model.shape or not np.all(np.abs(real - model) <= tol + REL * np.abs(model)):
+        ctx.corr_break('model-pdf-window', cfg=cfg, times=f, dx=DX, model=[float(x) for x in model],
+                       real=[float(x) for x in np.ravel(real)])
+
+
 # ----------------------------------------------------------------------------------------- cases
 def run_cfg(ctx, pg, cfg, vecs, eps, rng, probes=True):
     """all entry points x vectors x modes for one configuration"""
@@ -372,6 +394,7 @@ def run_cfg(ctx, pg, cfg, vecs, eps, rng, probes=True):
         if probes and vecs:
             for kind, ts in vecs[:2]:
                 probe_model(ctx, pg, cfg, ts, conv.make_coalescent(pg, cfg))
+            probe_pdf_window(ctx, pg, cfg, vecs[0][1], conv.make_coalescent(pg, cfg))
     if lc.records:
         ctx.count('warned')
     return lc
